@@ -148,6 +148,8 @@ impl<'a> PrettyPrinter<'a> {
 /// Check for duplicate import names in the given import items nodes.
 /// Returns `true` if no duplicates are found, `false` otherwise.
 fn check_import_name_duplication(import_items_nodes: &[&SyntaxNode]) -> bool {
+    #[cfg(typstyle_verif)]
+    crate::verif::point("import:dup-check");
     let mut seen = HashSet::new();
     for node in import_items_nodes.iter() {
         let name = match node.kind() {
